@@ -51,16 +51,22 @@ class Item(T.NamedTuple):
     val: bool
     eff: T.Optional[Eff]         # effect item
     raw: ast.AST
+    depth: int = 0               # > 0: the item comes from a spliced callee that is judged by its own table (see keep_forward)
 
 
 class Row(tables.Row):
     items: T.List[Item]
     ints: T.List[T.Tuple[ast.Call, ast.AST]]    # int(<x>) calls evaluated on the row: (original call, operand over reaching definitions)
     final: T.Dict[str, ast.AST]                 # attribute chain written on the row -> its value on exit, over entry values
-    exprs: T.List[T.Tuple[ast.AST, ast.AST]]    # (raw statement/condition, substituted copy) in order
+    exprs: T.List[T.Tuple[ast.AST, ast.AST, int]]    # (raw statement/condition, substituted copy, number of items evaluated before it)
 
-    def effs(self, kind: T.Optional[str] = None) -> T.List[Eff]:
-        return [i.eff for i in self.items if i.eff is not None and (kind is None or i.eff.kind == kind)]
+    def effs(self, kind: T.Optional[str] = None, own: bool = False) -> T.List[Eff]:
+        return [i.eff for i in self.items if i.eff is not None and (kind is None or i.eff.kind == kind) and (not own or i.depth == 0)]
+
+    def inner_atoms(self) -> T.Set[Atom]:
+        """Conditions evaluated inside spliced callees only (not by the tabulated body itself)."""
+        own = {i.atom for i in self.items if i.atom is not None and i.depth == 0}
+        return {i.atom for i in self.items if i.atom is not None and i.depth > 0} - own
 
     def index_of(self, pred: T.Callable[[Item], bool]) -> T.List[int]:
         return [k for k, i in enumerate(self.items) if pred(i)]
@@ -118,10 +124,11 @@ def param_names(fn: T.Any) -> T.Dict[str, str]:
 
 
 class _Frame:
-    def __init__(self, locals_: T.Dict[str, ast.AST], params: T.Dict[str, str], depth: int):
+    def __init__(self, locals_: T.Dict[str, ast.AST], params: T.Dict[str, str], depth: int, shadow: bool = False):
         self.locals = locals_
         self.params = params
         self.depth = depth
+        self.shadow = shadow     # inside a callee that is also kept as a forwarding item: its items are judged by its own table
 
 
 class _State:
@@ -130,7 +137,7 @@ class _State:
         self.conds: T.Dict[Atom, bool] = {}
         self.written: T.Set[str] = set()
         self.items: T.List[Item] = []
-        self.exprs: T.List[T.Tuple[ast.AST, ast.AST]] = []
+        self.exprs: T.List[T.Tuple[ast.AST, ast.AST, int]] = []
         self.ints: T.List[T.Tuple[ast.Call, ast.AST]] = []
 
     def copy(self) -> '_State':
@@ -148,11 +155,69 @@ def _placeholder(text: str) -> ast.AST:
 HelperResolver = T.Callable[[str], T.Optional[T.Any]]
 
 
+class Normal(ast.NodeTransformer):
+    """Source-to-source normal form applied to every substituted expression: `Owner.m(self, a)` -> `self.m(a)`;
+    a read of a class/module constant that folds to a text -> the text (`self._SKIP` -> 'SKIP')."""
+
+    def __init__(self, owner: str = '', texts: T.Optional[T.Callable[[str], T.Optional[str]]] = None):
+        self.owner = owner
+        self.texts = texts
+
+    def visit_Call(self, n: ast.Call) -> ast.AST:
+        self.generic_visit(n)
+        if self.owner and isinstance(n.func, ast.Attribute) and attr_chain(n.func.value) == self.owner and n.args \
+                and isinstance(n.args[0], ast.Name) and n.args[0].id == 'self':
+            return ast.Call(func=ast.Attribute(value=ast.Name(id='self', ctx=ast.Load()), attr=n.func.attr, ctx=ast.Load()), args=n.args[1:], keywords=n.keywords)
+        return n
+
+    def visit_Attribute(self, n: ast.Attribute) -> ast.AST:
+        if self.texts is not None and isinstance(n.ctx, ast.Load):
+            c = attr_chain(n)
+            if c is not None:
+                t = self.texts(c)
+                if t is not None:
+                    return ast.Constant(value=t)
+        return self.generic_visit(n)
+
+    def visit_Name(self, n: ast.Name) -> ast.AST:
+        if self.texts is not None and isinstance(n.ctx, ast.Load):
+            t = self.texts(n.id)
+            if t is not None:
+                return ast.Constant(value=t)
+        return n
+
+
+def _alts(e: ast.AST, val: bool) -> T.List[T.List[T.Tuple[ast.AST, bool]]]:
+    """Ways a (substituted) condition can take the value `val`, as lists of (atom expression, value) in evaluation order:
+    and/or/not are decomposed the way sa.paths decomposes the test of an `if` (a condition named as a local first, then tested)."""
+    if isinstance(e, ast.UnaryOp) and isinstance(e.op, ast.Not):
+        return _alts(e.operand, not val)
+    if isinstance(e, ast.Constant):
+        return [[]] if bool(e.value) == val else []
+    if isinstance(e, ast.BoolOp):
+        is_and = isinstance(e.op, ast.And)
+        if is_and == val:      # every operand takes `val`
+            out: T.List[T.List[T.Tuple[ast.AST, bool]]] = [[]]
+            for x in e.values:
+                out = [a + b for a in out for b in _alts(x, val)]
+            return out
+        res: T.List[T.List[T.Tuple[ast.AST, bool]]] = []
+        for k in range(len(e.values)):      # the first k operands do not decide, operand k does
+            pre: T.List[T.List[T.Tuple[ast.AST, bool]]] = [[]]
+            for x in e.values[:k]:
+                pre = [a + b for a in pre for b in _alts(x, not val)]
+            res += [a + b for a in pre for b in _alts(e.values[k], val)]
+        return res
+    return [[(e, val)]]
+
+
 def build(fn: T.Any, body: T.List[ast.stmt], name: str, seed: T.Optional[T.Dict[str, ast.AST]] = None,
-          handlers: bool = False, helpers: T.Optional[HelperResolver] = None) -> T.Tuple[tables.Table, T.Dict[str, ast.AST]]:
+          handlers: bool = False, helpers: T.Optional[HelperResolver] = None,
+          keep_forward: T.Collection[str] = (), normal: T.Optional[Normal] = None) -> T.Tuple[tables.Table, T.Dict[str, ast.AST]]:
     """Ordered decision table of `body` (a statement list of `fn`); `seed` = reaching definitions of locals on entry
     (already substituted).  `helpers(name)` resolves `self.<name>` to a method of the same class whose paths are spliced
     into the row where it is called as a statement (`yield from self.h(...)` / `self.h(...)`), two levels deep.
+    For a callee named in `keep_forward` the forwarding statement itself is kept as an item as well (the caller's operands stay visible).
     Returns the table and the definitions on exit that all normally-completing rows agree on."""
     rows: T.List[tables.Row] = []
     exit_box: T.List[T.Optional[T.Dict[str, ast.AST]]] = [None]
@@ -183,9 +248,13 @@ def build(fn: T.Any, body: T.List[ast.stmt], name: str, seed: T.Optional[T.Dict[
             return None
         return callee, bound
 
+    def _mk(fr: _Frame, atom: T.Optional[Atom], val: bool, eff: T.Optional[Eff], raw: ast.AST) -> Item:
+        return Item(atom, val, eff, raw, 1 if fr.shadow else 0)
+
     def proc(events: T.List[T.Any], i: int, st: _State, fr: _Frame, done: T.Callable[[_State, _Frame], None]) -> None:
         def sub(e: ast.AST) -> ast.AST:
-            return _Sub({**st.fields, **fr.locals}, fr.params).visit(copy.deepcopy(e))
+            x = _Sub({**st.fields, **fr.locals}, fr.params).visit(copy.deepcopy(e))
+            return normal.visit(x) if normal is not None else x
 
         def setlocal(nm: str, v: ast.AST) -> None:
             fr.locals[nm] = v if _inlinable(v) else _placeholder(f'{nm} after assignment')
@@ -207,28 +276,43 @@ def build(fn: T.Any, body: T.List[ast.stmt], name: str, seed: T.Optional[T.Dict[
             if ev.kind == 'cond':
                 e = sub(node)
                 bind_walrus(node)
-                a, v = tables.canon(e, bool(ev.val))
-                if a.kind in ('cmp', 'is') and len(a.args) >= 2 and a.args[-1] == a.args[-2] and (a.kind == 'is' or a.args[0] == 'eq'):
-                    if not v:       # x == x / x is x observed false: not a path
-                        return
+                alts = _alts(e, bool(ev.val))
+                forks: T.List[_State] = []
+                for alt in alts:
+                    st2 = st if len(alts) == 1 else st.copy()
+                    ok = True
+                    for x, xv in alt:
+                        a, v = tables.canon(x, xv)
+                        if a.kind in ('cmp', 'is') and len(a.args) >= 2 and a.args[-1] == a.args[-2] and (a.kind == 'is' or a.args[0] == 'eq'):
+                            if not v:       # x == x / x is x observed false: not a path
+                                ok = False
+                                break
+                            continue
+                        if a in st2.conds and st2.conds[a] != v:
+                            ok = False
+                            break
+                        st2.conds[a] = v
+                        st2.items.append(_mk(fr, a, v, None, node))
+                        st2.exprs.append((node, x, len(st2.items) - 1))
+                    if ok:
+                        forks.append(st2)
+                if len(alts) == 1 and forks:
                     continue
-                if a in st.conds and st.conds[a] != v:
-                    return
-                st.conds[a] = v
-                st.items.append(Item(a, v, None, node))
-                st.exprs.append((node, e))
+                for st2 in forks:
+                    proc(events, i, st2, _Frame(dict(fr.locals), fr.params, fr.depth, fr.shadow), done)
+                return
             elif ev.kind == 'exc':
-                st.items.append(Item(None, True, Eff('exc', '', None, '', node), node))
+                st.items.append(_mk(fr, None, True, Eff('exc', '', None, '', node), node))
             elif ev.kind == 'stmt':
                 s_ = node
                 if isinstance(s_, ast.Assign) and len(s_.targets) == 1:
                     v = sub(s_.value)
                     bind_walrus(s_.value)
                     t = s_.targets[0]
-                    st.exprs.append((s_, v))
+                    st.exprs.append((s_, v, len(st.items)))
                     if isinstance(t, ast.Name):
                         setlocal(t.id, v)
-                        st.items.append(Item(None, True, Eff('set', fr.params.get(t.id, t.id), v, '', s_), s_))
+                        st.items.append(_mk(fr, None, True, Eff('set', fr.params.get(t.id, t.id), v, '', s_), s_))
                     elif isinstance(t, (ast.Tuple, ast.List)):
                         names = [x.id if isinstance(x, ast.Name) else None for x in t.elts]
                         if (isinstance(v, ast.Call) and isinstance(v.func, ast.Attribute) and v.func.attr == 'groups' and not v.args and not v.keywords
@@ -237,7 +321,7 @@ def build(fn: T.Any, body: T.List[ast.stmt], name: str, seed: T.Optional[T.Dict[
                             for k, nm in enumerate(names):
                                 setlocal(T.cast(str, nm), ast.Call(func=ast.Attribute(value=copy.deepcopy(v.func.value), attr='group', ctx=ast.Load()),
                                                                   args=[ast.Constant(value=k + 1)], keywords=[]))
-                            st.items.append(Item(None, True, Eff('unpack', str(len(names)), v, '', s_), s_))
+                            st.items.append(_mk(fr, None, True, Eff('unpack', str(len(names)), v, '', s_), s_))
                         elif isinstance(v, (ast.Tuple, ast.List)) and len(v.elts) == len(t.elts) and all(names):
                             for nm, x in zip(names, v.elts):
                                 setlocal(T.cast(str, nm), x)
@@ -245,10 +329,10 @@ def build(fn: T.Any, body: T.List[ast.stmt], name: str, seed: T.Optional[T.Dict[
                             for nm in names:
                                 if nm:
                                     fr.locals[nm] = _placeholder(f'unpacked {nm}')
-                            st.items.append(Item(None, True, Eff('set', norm(sub(t)), v, '', s_), s_))
+                            st.items.append(_mk(fr, None, True, Eff('set', norm(sub(t)), v, '', s_), s_))
                     else:
                         c = attr_chain(t)
-                        st.items.append(Item(None, True, Eff('set', c or norm(sub(t)), v, '', s_), s_))
+                        st.items.append(_mk(fr, None, True, Eff('set', c or norm(sub(t)), v, '', s_), s_))
                         if c is not None:
                             for k_ in [k_ for k_ in st.fields if k_.startswith(c + '.')]:
                                 del st.fields[k_]
@@ -256,26 +340,26 @@ def build(fn: T.Any, body: T.List[ast.stmt], name: str, seed: T.Optional[T.Dict[
                             st.written.add(c)
                 elif isinstance(s_, ast.AnnAssign) and s_.value is not None:
                     v = sub(s_.value)
-                    st.exprs.append((s_, v))
+                    st.exprs.append((s_, v, len(st.items)))
                     if isinstance(s_.target, ast.Name):
                         setlocal(s_.target.id, v)
-                        st.items.append(Item(None, True, Eff('set', s_.target.id, v, '', s_), s_))
+                        st.items.append(_mk(fr, None, True, Eff('set', s_.target.id, v, '', s_), s_))
                     else:
                         c = attr_chain(s_.target)
-                        st.items.append(Item(None, True, Eff('set', c or norm(sub(s_.target)), v, '', s_), s_))
+                        st.items.append(_mk(fr, None, True, Eff('set', c or norm(sub(s_.target)), v, '', s_), s_))
                         if c is not None:
                             st.fields[c] = v if _inlinable(v) else _placeholder(f'{c} after assignment')
                             st.written.add(c)
                 elif isinstance(s_, ast.AugAssign):
                     v = sub(s_.value)
-                    st.exprs.append((s_, v))
+                    st.exprs.append((s_, v, len(st.items)))
                     if isinstance(s_.target, ast.Name):
                         cur = sub(ast.Name(id=s_.target.id, ctx=ast.Load()))
                         setlocal(s_.target.id, ast.BinOp(left=cur, op=s_.op, right=v))
-                        st.items.append(Item(None, True, Eff('aug', fr.params.get(s_.target.id, s_.target.id), v, type(s_.op).__name__, s_), s_))
+                        st.items.append(_mk(fr, None, True, Eff('aug', fr.params.get(s_.target.id, s_.target.id), v, type(s_.op).__name__, s_), s_))
                     else:
                         c = attr_chain(s_.target)
-                        st.items.append(Item(None, True, Eff('aug', c or norm(sub(s_.target)), v, type(s_.op).__name__, s_), s_))
+                        st.items.append(_mk(fr, None, True, Eff('aug', c or norm(sub(s_.target)), v, type(s_.op).__name__, s_), s_))
                         if c is not None:
                             cur = sub(ast.Attribute(value=s_.target.value, attr=s_.target.attr, ctx=ast.Load()))   # type: ignore[attr-defined]
                             nv = ast.BinOp(left=cur, op=s_.op, right=v)
@@ -289,6 +373,10 @@ def build(fn: T.Any, body: T.List[ast.stmt], name: str, seed: T.Optional[T.Dict[
                     hc = helper_call(val.value if is_yf else val, is_yf, fr.depth) if isinstance(val, (ast.YieldFrom, ast.Call)) else None
                     if hc is not None:
                         callee, bound = hc
+                        if callee.name in keep_forward:
+                            v = sub(val.value if is_yf else val)
+                            st.items.append(_mk(fr, None, True, Eff('yieldfrom' if is_yf else 'call', '', v, '', s_), s_))
+                            st.exprs.append((s_, v, len(st.items)))
                         if id(callee) not in hpaths:
                             hpaths[id(callee)] = enumerate_paths(callee.body, unroll=1, handlers=handlers)
                         args = {pn: sub(x) for pn, x in bound.items()}
@@ -297,24 +385,24 @@ def build(fn: T.Any, body: T.List[ast.stmt], name: str, seed: T.Optional[T.Dict[
                             if hp.outcome == 'raise':
                                 raise Undecided(f'{name}: helper {callee.name} can raise explicitly')
                             st2 = st.copy()
-                            hfr = _Frame({pn: (x if _inlinable(x) else _placeholder(pn)) for pn, x in args.items()}, {}, fr.depth + 1)
-                            cfr = _Frame(dict(caller.locals), caller.params, caller.depth)
+                            hfr = _Frame({pn: (x if _inlinable(x) else _placeholder(pn)) for pn, x in args.items()}, {}, fr.depth + 1, fr.shadow or callee.name in keep_forward)
+                            cfr = _Frame(dict(caller.locals), caller.params, caller.depth, caller.shadow)
                             proc(hp.events, 0, st2, hfr, lambda s3, _f, cfr=cfr: proc(rest_events, rest_i, s3, cfr, done))
                         return
                     if isinstance(val, ast.Yield):
                         v = sub(val.value) if val.value is not None else ast.Constant(value=None)
-                        st.items.append(Item(None, True, Eff('yield', '', v, '', s_), s_))
+                        st.items.append(_mk(fr, None, True, Eff('yield', '', v, '', s_), s_))
                     elif is_yf:
                         v = sub(val.value)
-                        st.items.append(Item(None, True, Eff('yieldfrom', '', v, '', s_), s_))
+                        st.items.append(_mk(fr, None, True, Eff('yieldfrom', '', v, '', s_), s_))
                     else:
                         v = sub(val)
-                        st.items.append(Item(None, True, Eff('call', '', v, '', s_), s_))
-                    st.exprs.append((s_, v))
+                        st.items.append(_mk(fr, None, True, Eff('call', '', v, '', s_), s_))
+                    st.exprs.append((s_, v, len(st.items)))
                 elif isinstance(s_, (ast.Return, ast.Raise)):
                     x = s_.value if isinstance(s_, ast.Return) else s_.exc
                     if x is not None:
-                        st.exprs.append((s_, sub(x)))
+                        st.exprs.append((s_, sub(x), len(st.items)))
                 elif isinstance(s_, (ast.Pass, ast.Import, ast.ImportFrom, ast.Global, ast.Nonlocal)):
                     pass
                 elif isinstance(s_, (ast.FunctionDef, ast.AsyncFunctionDef, ast.ClassDef)):
@@ -329,13 +417,14 @@ def build(fn: T.Any, body: T.List[ast.stmt], name: str, seed: T.Optional[T.Dict[
                 for n in ast.walk(node):
                     if isinstance(n, ast.Name) and isinstance(n.ctx, ast.Store):
                         fr.locals[n.id] = _placeholder(f'{n.id} bound by a loop')
-                st.items.append(Item(None, True, Eff('loop' if ev.kind == 'iter' else 'with', '', None, str(ev.val), node), node))
+                st.items.append(_mk(fr, None, True, Eff('loop' if ev.kind == 'iter' else 'with', '', None, str(ev.val), node), node))
         done(st, fr)
 
     for p in enumerate_paths(body, unroll=1, handlers=handlers):
         def finish(st: _State, fr: _Frame, p: T.Any = p) -> None:
             def sub(e: ast.AST) -> ast.AST:
-                return _Sub({**st.fields, **fr.locals}, fr.params).visit(copy.deepcopy(e))
+                x = _Sub({**st.fields, **fr.locals}, fr.params).visit(copy.deepcopy(e))
+                return normal.visit(x) if normal is not None else x
             r = Row(st.conds, tables.default_outcome(p, sub), tuple(repr(i.eff) for i in st.items if i.eff is not None), p)
             r.items, r.ints, r.exprs = st.items, st.ints, st.exprs
             r.final = {c: st.fields[c] for c in st.written if c in st.fields}
@@ -361,12 +450,16 @@ def compare(table: tables.Table, sem: T.Callable[[Atom], T.Optional[T.Tuple[str,
             ref: T.Callable[[T.Dict[str, T.Optional[bool]]], T.Any], got: T.Callable[[Row, T.Dict[str, T.Optional[bool]]], T.Any],
             extra: T.Iterable[Atom] = (), ignore: T.Callable[[Atom], bool] = lambda a: False,
             foreign: T.Optional[T.Callable[[Atom, T.List[Atom]], T.Optional[str]]] = None,
+            inner: T.Collection[Atom] = (),
             consistent: T.Callable[[T.Dict[str, T.Optional[bool]]], bool] = lambda v: True) -> T.Tuple[int, T.List[T.Tuple[Row, T.Any, T.Any, T.Dict[str, T.Optional[bool]]]], T.List[T.Dict[str, T.Optional[bool]]]]:
     """Enumerate the worlds of the table's atoms; `sem(atom)` -> (semantic name, flip) or None (unknown atom ->
     `foreign(atom, others)` may admit it as a free input, else Undecided); `ref(view)` -> expected, `got(row, view)` -> actual.  Returns (worlds compared, mismatches, holes = consistent worlds in which no row fires, i.e. an assumed assertion fails)."""
     names: T.Dict[Atom, T.Tuple[str, bool]] = {}
     for a in list(table.atoms()) + list(extra):
         if ignore(a):
+            continue
+        if a in inner:      # decided inside a spliced callee (judged by that callee's own table): a free input here
+            names[a] = (f'inner: {a!r}', False)
             continue
         s = sem(a)
         if s is None and foreign is not None:
